@@ -1,9 +1,12 @@
 #!/usr/bin/env python3
 """regenerate /verif/ledger.json (obligations discharged on the accepted tree) -- run only when a `fix:` commit or a contract change is
-accepted:  tools/mkledger.py [quick|thorough ...]   (runs every check with VERIF_WRITE_LEDGER=1 and merges the parts)"""
+accepted:  tools/mkledger.py [quick|thorough ...]   (runs every check with VERIF_WRITE_LEDGER=1 and merges the parts)
+           tools/mkledger.py --rebuild               (no runs: ledger.json rebuilt from ledger_parts/ only, dropping names that no part contains any more)"""
 import glob, json, os, subprocess, sys
 V = os.path.dirname(os.path.dirname(os.path.abspath(__file__)))
 tiers = [a for a in sys.argv[1:] if not a.startswith("--")] or ["quick"]
+if "--rebuild" in sys.argv:
+    tiers = []
 props = [c["property_id"] for c in json.load(open(f"{V}/MANIFEST.json"))["checks"]]
 for a in sys.argv[1:]:
     if a.startswith("--only="):
